@@ -3,7 +3,10 @@ package main
 // C04 — document validation accepts conforming documents, rejects each violation.
 // Real code exercised: openapi3.Loader.LoadFromData (to obtain a resolved document exactly as a user
 // would) and (*openapi3.T).Validate with option combinations. A case is
-//   {"doc": <OpenAPI document>, "detach": [<$ref strings un-resolved after loading>], "opts": {...}}
+//   {"doc": <OpenAPI document>, "detach": [<$ref strings un-resolved after loading>],
+//    "optlist": [[<ValidationOption constructor>, <argument>…], …]  — the option list, in order, repeats allowed,
+//    "before": [{"doc","detach","optlist"}, …]                       — Validate calls made earlier in the same process}
+// (replay files of earlier rounds carry "opts": {...} and "explicit" instead of "optlist")
 // and is at the same time the request to the Lean driver, which parses the same document into the
 // model tree.
 
@@ -13,6 +16,7 @@ import (
 	"fmt"
 	"os"
 	"reflect"
+	"regexp"
 	"sort"
 	"strings"
 
@@ -41,30 +45,97 @@ func init() {
 			"patterns come from a fixed family of compilable / uncompilable expressions; URLs are parseable",
 			"documents are acyclic; unresolved references are produced by detaching a loaded reference (the loader itself refuses them)",
 			"error messages and the choice of the first error are not compared (observable: error / nil)",
+			"the custom regular-expression engine given to SetRegexCompiler compiles every pattern; it only meets pattern strings unique to its case",
 		},
 	})
 }
 
 // ---------------------------------------------------------------- run
 
-func c04Options(o map[string]any, explicit bool) []openapi3.ValidationOption {
-	var opts []openapi3.ValidationOption
-	set := func(k string, on, off openapi3.ValidationOption) {
+// c04OptList is the option list of a case: "optlist" if present, else rebuilt from the "opts" record of earlier rounds
+func c04OptList(c map[string]any) [][]string {
+	if l, ok := c["optlist"]; ok {
+		var out [][]string
+		for _, e := range jlist(l) {
+			out = append(out, toStrs(e))
+		}
+		return out
+	}
+	o, _ := c["opts"].(map[string]any)
+	explicit := jbool(c, "explicit")
+	var out [][]string
+	set := func(k, on, off string) {
 		if jbool(o, k) {
-			opts = append(opts, on)
+			out = append(out, []string{on})
 		} else if explicit {
-			opts = append(opts, off)
+			out = append(out, []string{off})
 		}
 	}
-	set("exDisabled", openapi3.DisableExamplesValidation(), openapi3.EnableExamplesValidation())
-	set("defDisabled", openapi3.DisableSchemaDefaultsValidation(), openapi3.EnableSchemaDefaultsValidation())
-	set("fmtEnabled", openapi3.EnableSchemaFormatValidation(), openapi3.DisableSchemaFormatValidation())
-	set("patDisabled", openapi3.DisableSchemaPatternValidation(), openapi3.EnableSchemaPatternValidation())
-	set("extProhibited", openapi3.ProhibitExtensionsWithRef(), openapi3.AllowExtensionsWithRef())
+	set("exDisabled", "DisableExamplesValidation", "EnableExamplesValidation")
+	set("defDisabled", "DisableSchemaDefaultsValidation", "EnableSchemaDefaultsValidation")
+	set("fmtEnabled", "EnableSchemaFormatValidation", "DisableSchemaFormatValidation")
+	set("patDisabled", "DisableSchemaPatternValidation", "EnableSchemaPatternValidation")
+	set("extProhibited", "ProhibitExtensionsWithRef", "AllowExtensionsWithRef")
 	if al := toStrs(o["allowed"]); len(al) > 0 {
-		opts = append(opts, openapi3.AllowExtraSiblingFields(al...))
+		out = append(out, append([]string{"AllowExtraSiblingFields"}, al...))
 	}
-	return opts
+	return out
+}
+
+// a regular-expression engine that compiles every pattern (stand-in for an ECMA-262 engine)
+type c04AnyMatcher struct{ re *regexp.Regexp }
+
+func (m c04AnyMatcher) MatchString(s string) bool { return m.re == nil || m.re.MatchString(s) }
+
+func c04PermissiveCompiler(expr string) (openapi3.RegexMatcher, error) {
+	re, err := regexp.Compile(expr)
+	if err != nil {
+		return c04AnyMatcher{}, nil
+	}
+	return c04AnyMatcher{re}, nil
+}
+
+// every constructor of validation_options.go by name (the Lean side reads the same names from table OptionCtors)
+func c04Options(list [][]string) ([]openapi3.ValidationOption, error) {
+	var opts []openapi3.ValidationOption
+	for _, e := range list {
+		if len(e) == 0 {
+			return nil, fmt.Errorf("empty option")
+		}
+		switch e[0] {
+		case "DisableExamplesValidation":
+			opts = append(opts, openapi3.DisableExamplesValidation())
+		case "EnableExamplesValidation":
+			opts = append(opts, openapi3.EnableExamplesValidation())
+		case "DisableSchemaDefaultsValidation":
+			opts = append(opts, openapi3.DisableSchemaDefaultsValidation())
+		case "EnableSchemaDefaultsValidation":
+			opts = append(opts, openapi3.EnableSchemaDefaultsValidation())
+		case "EnableSchemaFormatValidation":
+			opts = append(opts, openapi3.EnableSchemaFormatValidation())
+		case "DisableSchemaFormatValidation":
+			opts = append(opts, openapi3.DisableSchemaFormatValidation())
+		case "DisableSchemaPatternValidation":
+			opts = append(opts, openapi3.DisableSchemaPatternValidation())
+		case "EnableSchemaPatternValidation":
+			opts = append(opts, openapi3.EnableSchemaPatternValidation())
+		case "ProhibitExtensionsWithRef":
+			opts = append(opts, openapi3.ProhibitExtensionsWithRef())
+		case "AllowExtensionsWithRef":
+			opts = append(opts, openapi3.AllowExtensionsWithRef())
+		case "AllowExtraSiblingFields":
+			opts = append(opts, openapi3.AllowExtraSiblingFields(e[1:]...))
+		case "SetRegexCompiler":
+			if len(e) == 2 && e[1] == "permissive" {
+				opts = append(opts, openapi3.SetRegexCompiler(c04PermissiveCompiler))
+			} else {
+				opts = append(opts, openapi3.SetRegexCompiler(nil))
+			}
+		default:
+			return nil, fmt.Errorf("unknown option constructor %q", e[0])
+		}
+	}
+	return opts, nil
 }
 
 // detachRefs sets Value = nil on every reference wrapper (*XxxRef) whose Ref is in the set.
@@ -118,7 +189,8 @@ func detachRefs(v reflect.Value, refs map[string]bool, seen map[uintptr]bool) {
 	}
 }
 
-func runC04(c hx.Case) any {
+// c04Call loads the document of one call, detaches, validates with the call's option list
+func c04Call(c map[string]any) map[string]any {
 	data, err := json.Marshal(c["doc"])
 	if err != nil {
 		return map[string]any{"loaderr": err.Error()}
@@ -135,8 +207,11 @@ func runC04(c hx.Case) any {
 		}
 		detachRefs(reflect.ValueOf(doc), refs, map[uintptr]bool{})
 	}
-	o, _ := c["opts"].(map[string]any)
-	err = doc.Validate(context.Background(), c04Options(o, jbool(c, "explicit"))...)
+	opts, err := c04Options(c04OptList(c))
+	if err != nil {
+		return map[string]any{"loaderr": err.Error()}
+	}
+	err = doc.Validate(context.Background(), opts...)
 	res := map[string]any{"ok": err == nil}
 	if err != nil {
 		msg := err.Error()
@@ -148,10 +223,22 @@ func runC04(c hx.Case) any {
 	return res
 }
 
+func runC04(c hx.Case) any {
+	// the calls made earlier in the process (their verdicts are not the observation of this case)
+	for _, b := range jlist(c["before"]) {
+		if bm := asMap(b); bm != nil {
+			if r := c04Call(bm); r["loaderr"] != nil {
+				return map[string]any{"loaderr": "before: " + fmt.Sprint(r["loaderr"])}
+			}
+		}
+	}
+	return c04Call(c)
+}
+
 func cmpC04(c hx.Case, impl any, reply map[string]any) hx.Verdict {
 	v := cmpC04x(c, impl, reply)
 	if (!v.IM || !v.IS) && os.Getenv("VERIF_C04_DEBUG") != "" {
-		fmt.Fprintf(os.Stderr, "DBG IM=%v IS=%v tag=%v opts=%v excl=%v spec=%v :: %s\n", v.IM, v.IS, c["tag"], hx.Canon(c["opts"]), reply["excl"], reply["spec"], v.Detail)
+		fmt.Fprintf(os.Stderr, "DBG IM=%v IS=%v tag=%v optlist=%v excl=%v spec=%v :: %s\n", v.IM, v.IS, c["tag"], c04OptList(c), reply["excl"], reply["spec"], v.Detail)
 	}
 	return v
 }
@@ -1462,7 +1549,69 @@ func c04Case(doc map[string]any, detach []any, opts map[string]any, tag string, 
 	if detach == nil {
 		detach = []any{}
 	}
-	return hx.Case{"doc": doc, "detach": detach, "opts": opts, "tag": tag, "explicit": explicit}
+	return c04CaseL(doc, detach, c04OptList(map[string]any{"opts": opts, "explicit": explicit}), tag)
+}
+
+func c04CaseL(doc map[string]any, detach []any, list [][]string, tag string) hx.Case {
+	if detach == nil {
+		detach = []any{}
+	}
+	ol := []any{}
+	for _, e := range list {
+		x := []any{}
+		for _, w := range e {
+			x = append(x, w)
+		}
+		ol = append(ol, x)
+	}
+	return hx.Case{"doc": doc, "detach": detach, "optlist": ol, "tag": tag}
+}
+
+// every option constructor instance the lists are drawn from
+var c04Ctors = [][]string{
+	{"DisableExamplesValidation"}, {"EnableExamplesValidation"}, {"DisableSchemaDefaultsValidation"}, {"EnableSchemaDefaultsValidation"},
+	{"EnableSchemaFormatValidation"}, {"DisableSchemaFormatValidation"}, {"DisableSchemaPatternValidation"}, {"EnableSchemaPatternValidation"},
+	{"ProhibitExtensionsWithRef"}, {"AllowExtensionsWithRef"}, {"AllowExtraSiblingFields", "bogus"}, {"AllowExtraSiblingFields", "description", "x-ext"},
+	{"AllowExtraSiblingFields"}, {"SetRegexCompiler", "permissive"}, {"SetRegexCompiler", "nil"},
+}
+
+// documents with exactly one option-governed violation each (and the conforming base); the pattern one carries a
+// pattern string unique to the case (stem of the uncompilable family + suffix), so that nothing a case may leave in a
+// process-wide cache can meet another case
+func c04OptionDocs(base map[string]any, uniq *int) []struct {
+	name string
+	doc  map[string]any
+} {
+	mk := func(edit func(d map[string]any)) map[string]any {
+		d := deepCopy(base).(map[string]any)
+		edit(d)
+		return d
+	}
+	schemas := func(d map[string]any) map[string]any { return asMap(asMap(d["components"])["schemas"]) }
+	*uniq++
+	pat := fmt.Sprintf("(?!a)q%d", *uniq)
+	return []struct {
+		name string
+		doc  map[string]any
+	}{
+		{"conforming", mk(func(d map[string]any) {})},
+		{"default-mismatch", mk(func(d map[string]any) { asMap(schemas(d)["Str"])["default"] = 1 })},
+		{"example-mismatch", mk(func(d map[string]any) { asMap(schemas(d)["Str"])["example"] = 1 })},
+		{"format-unknown", mk(func(d map[string]any) { asMap(schemas(d)["Str"])["format"] = "bogusfmt" })},
+		{"pattern-uncompilable", mk(func(d map[string]any) { asMap(schemas(d)["Str"])["pattern"] = pat })},
+		{"ref-x-sibling", mk(func(d map[string]any) {
+			asMap(asMap(schemas(d)["Obj"])["properties"])["a"] = map[string]any{"$ref": "#/components/schemas/Str"}
+			asMap(asMap(asMap(asMap(d["paths"])["/y"])["put"])["requestBody"])["x-ext"] = 1
+		})},
+		{"ref-description-sibling", mk(func(d map[string]any) {
+			asMap(asMap(asMap(asMap(d["paths"])["/y"])["put"])["requestBody"])["description"] = "d"
+		})},
+		{"extra-field-bogus", mk(func(d map[string]any) { asMap(d["info"])["bogus"] = 1 })},
+		{"default-and-pattern", mk(func(d map[string]any) {
+			asMap(schemas(d)["Str"])["pattern"] = pat
+			asMap(schemas(d)["Arr"])["default"] = 1
+		})},
+	}
 }
 
 // injections whose verdict can depend on a validation option
@@ -1549,6 +1698,107 @@ func genC04(ctx *hx.Ctx, emit func(hx.Case)) {
 			n++
 		}
 	}
+	// 2b. option LISTS (WithValidationOptions folds them left to right): every list of length 0, 1, 2 over the fifteen
+	// constructor instances (repeats included: Disable then Enable, Enable then Disable, the same twice, an Enable of one
+	// check after the Disable of another), on the conforming base and on one document per option-governed rule
+	uniq := 0
+	for i := -1; i < len(c04Ctors); i++ {
+		for j := -1; j < len(c04Ctors); j++ {
+			if i < 0 && j >= 0 {
+				continue // the empty prefix followed by something is the length-1 list, produced with j < 0
+			}
+			var list [][]string
+			if i >= 0 {
+				list = append(list, c04Ctors[i])
+			}
+			if j >= 0 {
+				list = append(list, c04Ctors[j])
+			}
+			for _, od := range c04OptionDocs(base, &uniq) {
+				if !ctx.Thorough() && len(list) == 2 {
+					// quick tier: pairs only on the documents whose rule one of the two constructors can govern
+					names := list[0][0] + " " + list[1][0]
+					sib := strings.Contains(names, "AllowExtraSiblingFields")
+					switch od.name {
+					case "conforming":
+						continue
+					case "ref-description-sibling", "extra-field-bogus":
+						if !sib {
+							continue
+						}
+					case "ref-x-sibling":
+						if !sib && !strings.Contains(names, "WithRef") {
+							continue
+						}
+					case "example-mismatch":
+						if !strings.Contains(names, "ExamplesValidation") && (i+j)%2 == 1 {
+							continue
+						}
+					case "format-unknown":
+						if !strings.Contains(names, "FormatValidation") && (i+j)%2 == 0 {
+							continue
+						}
+					}
+				}
+				emit(c04CaseL(od.doc, nil, list, "optlist:"+od.name))
+			}
+		}
+	}
+	// 2c. history: Validate calls made earlier in the same process must not change the verdict of a later call.
+	// Earlier calls: the same or another document carrying the same (unique) pattern string, validated with a custom
+	// regular-expression engine, with the pattern check disabled, with the default engine; one or two of them.
+	{
+		patDoc := func(pat string, where int) map[string]any {
+			d := deepCopy(base).(map[string]any)
+			sch := asMap(asMap(d["components"])["schemas"])
+			if where == 0 {
+				asMap(sch["Str"])["pattern"] = pat
+			} else {
+				asMap(asMap(asMap(sch["Obj"])["properties"])["a"])["type"] = "string"
+				asMap(asMap(sch["Obj"])["properties"])["a"].(map[string]any)["pattern"] = pat
+			}
+			return d
+		}
+		call := func(doc map[string]any, list [][]string) map[string]any {
+			c := c04CaseL(doc, nil, list, "")
+			delete(c, "tag")
+			return map[string]any(c)
+		}
+		befores := [][][]string{
+			{{"SetRegexCompiler", "permissive"}},
+			{{"SetRegexCompiler", "permissive"}, {"EnableSchemaPatternValidation"}},
+			{{"DisableSchemaPatternValidation"}},
+			{},
+			{{"DisableExamplesValidation"}, {"DisableSchemaDefaultsValidation"}},
+		}
+		afters := [][][]string{{}, {{"EnableSchemaPatternValidation"}}, {{"SetRegexCompiler", "nil"}}, {{"DisableSchemaPatternValidation"}},
+			{{"SetRegexCompiler", "permissive"}}, {{"DisableSchemaDefaultsValidation"}, {"EnableSchemaDefaultsValidation"}}}
+		stems := []string{"(?!a)", "(", "[a", "*a", "^a+$"}
+		k := 0
+		for _, stem := range stems {
+			for bi, bl := range befores {
+				for ai, al := range afters {
+					for same := 0; same < 2; same++ {
+						if !ctx.Thorough() && (bi+ai+same+k)%2 == 1 && bi > 0 {
+							continue
+						}
+						k++
+						pat := fmt.Sprintf("%shist%d", stem, k)
+						if stem == "^a+$" {
+							pat = fmt.Sprintf("^a+hist%d$", k)
+						}
+						before := []any{call(patDoc(pat, 0), bl)}
+						if (ai+bi)%3 == 0 { // two earlier calls
+							before = append(before, call(patDoc(pat, 1), [][]string{{"SetRegexCompiler", "permissive"}}))
+						}
+						c := c04CaseL(patDoc(pat, same), nil, al, fmt.Sprintf("history:%s", stem))
+						c["before"] = before
+						emit(c)
+					}
+				}
+			}
+		}
+	}
 	// 3. seeded stream: 1–3 injections at random sites (re-walked after each), random options
 	r := ctx.Rng
 	count := 1200
@@ -1578,7 +1828,19 @@ func genC04(ctx *hx.Ctx, emit func(hx.Case)) {
 		if !c04InFragment(b.doc) {
 			continue
 		}
-		emit(c04Case(b.doc, b.detach, c04OptSet(mask, al), "rnd:"+tag, ex))
+		if i%2 == 0 {
+			emit(c04Case(b.doc, b.detach, c04OptSet(mask, al), "rnd:"+tag, ex))
+		} else {
+			var list [][]string
+			for n := r.Intn(4); n > 0; n-- {
+				e := c04Ctors[r.Intn(len(c04Ctors))]
+				if e[0] == "SetRegexCompiler" && e[1] == "permissive" {
+					e = []string{"SetRegexCompiler", "nil"} // (the permissive engine only meets patterns unique to a case)
+				}
+				list = append(list, e)
+			}
+			emit(c04CaseL(b.doc, b.detach, list, "rndlist:"+tag))
+		}
 	}
 }
 
@@ -1631,24 +1893,16 @@ func shrinkC04(c hx.Case) []hx.Case {
 		x["tag"] = "shrunk:" + strings.TrimPrefix(jstr(c, "tag"), "shrunk:")
 		out = append(out, x)
 	}
-	if o, _ := c["opts"].(map[string]any); o != nil {
-		for _, k := range c04OptKeys {
-			if jbool(o, k) {
-				no := deepCopy(o).(map[string]any)
-				no[k] = false
-				x := cloneCase(c)
-				x["opts"] = no
-				out = append(out, x)
-			}
-		}
-		if len(jlist(o["allowed"])) > 0 {
-			no := deepCopy(o).(map[string]any)
-			no["allowed"] = []any{}
+	if l := jlist(c["optlist"]); len(l) > 0 {
+		for i := range l {
 			x := cloneCase(c)
-			x["opts"] = no
+			x["optlist"] = append(append([]any{}, l[:i]...), l[i+1:]...)
 			out = append(out, x)
 		}
 	}
+	// (the earlier calls of a sequence are never dropped while shrinking: candidates are evaluated in this process, in
+	// which the earlier calls of the original case have already happened — a variant without them could fail here and
+	// pass when replayed in a fresh process)
 	if len(jlist(c["detach"])) > 0 {
 		x := cloneCase(c)
 		x["detach"] = []any{}
